@@ -258,27 +258,8 @@ func keyClass(s string, perr error, v, maxIdx int64) string {
 	return "in-range"
 }
 
-// c20MaxList returns the longest list part found in the private state (read through the
-// reflective walker's output: "a:[len=N").
-func c20MaxList(c *ucfg.Config) int {
-	text := fp.Of(fp.Canon, c)
-	max := 0
-	for {
-		i := strings.Index(text, "a:[len=")
-		if i < 0 {
-			return max
-		}
-		text = text[i+7:]
-		j := 0
-		for j < len(text) && text[j] >= '0' && text[j] <= '9' {
-			j++
-		}
-		n, _ := strconv.Atoi(text[:j])
-		if n > max {
-			max = n
-		}
-	}
-}
+// c20MaxList returns the longest list part found in the private state (reflective walker).
+func c20MaxList(c *ucfg.Config) int { return fp.MaxList(c) }
 
 func init() {
 	core.Register(&core.Check{
